@@ -3,6 +3,7 @@ import Parmcb.Driver.Gf2
 import Parmcb.Driver.Fp
 import Parmcb.Driver.Graph
 import Parmcb.Driver.Knob
+import Parmcb.Driver.Dimacs
 open Parmcb.Driver
 
 def dispatch (c : Case) : String :=
@@ -14,6 +15,7 @@ def dispatch (c : Case) : String :=
   | "fvs" => handleFvs c
   | "exact" => handleExact c
   | "knob" => handleKnob c
+  | "dimacs" => handleDimacs c
   | "spanner" => handleSpanner c
   | "trees" => handleTrees c
   | "cands" => handleCands c
